@@ -13,6 +13,8 @@ from . import c05
 
 def run(ctx):
     rm = REModel(ctx.repo)
+    # the seq_nums of collected datums stay contiguous across a rewind: the collected stream's counter is never rolled back (seed C45-c)
+    c05.d1_unreplayed_streams_keep_numbers(ctx, rm, streams=("collect",), rule="C45.D4-collected-streams-keep-counters")
     ctx.explanation = (
         "Decided: D1 collect advances the stream counter by exactly the index width returned for the packed stream datums and "
         "stream-datum seq_nums are built from that counter (shared with C05.D3); all datums of one collect must have the same width; "
